@@ -63,6 +63,9 @@ Ltac hs :=
   | |- handles_shrink ?s0 (set_reg _ ?s1) => apply (hs_trans s0 s1); [ | apply hs_same; reflexivity ]; hs
   | |- handles_shrink ?s0 (set_rlock _ ?s1) => apply (hs_trans s0 s1); [ | apply hs_same; reflexivity ]; hs
   | |- handles_shrink ?s0 (set_rpend _ ?s1) => apply (hs_trans s0 s1); [ | apply hs_same; reflexivity ]; hs
+  | |- handles_shrink ?s0 (add_pend _ ?s1) => apply (hs_trans s0 s1); [ | apply hs_same; reflexivity ]; hs
+  | |- handles_shrink ?s0 (del_pend _ ?s1) => apply (hs_trans s0 s1); [ | apply hs_same; reflexivity ]; hs
+  | |- handles_shrink ?s0 (add_actor _ ?s1) => apply (hs_trans s0 s1); [ | apply hs_same; reflexivity ]; hs
   | |- handles_shrink ?s0 (match ?c with _ => _ end) => destruct c; hs
   | |- handles_shrink ?s0 ?v =>
       match goal with
